@@ -40,6 +40,8 @@ type Atom struct {
 	Window    int             // nested decoder: constant width of the window it is handed (0 = open-ended)
 	Callee    *ssa.Function   // nested: the codec function called
 	At        ssa.Instruction // decoder: where the bytes are consumed
+	FI        *prove.FuncInfo // decoder: the frame OffForm/WidthForm are expressed in
+	Unrolled  bool            // decoder: one row of a constant-table loop, already unrolled
 	Cond     bool   // executed under a data-dependent condition
 }
 
